@@ -24,6 +24,31 @@ OTHER_SPECIALS = [0x00, 0x09, 0x1f, 0x20, 0x7f, 0x80, 0xa0, 0xaa, 0xb9, 0xff, 0x
                   0x10ffff, 0xd800, 0xdbff, 0xdc00, 0xdfff]
 SPECIALS = CASEMAP_SPECIALS + OTHER_SPECIALS
 
+_CASEMAP_SCAN = None
+
+
+def casemap_scan():
+    """{code point: set of printable-ASCII characters it maps to} for EVERY code point >= 128 of this
+    interpreter's Unicode database whose lower()/upper()/casefold()/title()/swapcase()/capitalize() contains a
+    character of 33..126 (the HRP alphabet, which includes the data alphabet and the separator).  Computed at
+    run time (0.6 s) so that a newer Unicode version cannot outdate a hard-coded list."""
+    global _CASEMAP_SCAN
+    if _CASEMAP_SCAN is None:
+        ascii_ = set(map(chr, range(33, 127)))
+        out = {}
+        for cp in range(128, 0x110000):
+            if 0xd800 <= cp <= 0xdfff:
+                continue
+            ch = chr(cp)
+            hit = set()
+            for f in (ch.lower(), ch.upper(), ch.casefold(), ch.title(), ch.swapcase(), ch.capitalize()):
+                if f != ch:
+                    hit |= ascii_.intersection(f)
+            if hit:
+                out[cp] = hit
+        _CASEMAP_SCAN = out
+    return _CASEMAP_SCAN
+
 
 def fullwidth(ch):
     """the FULLWIDTH form of a printable ASCII character (NFKC maps it back)"""
@@ -125,7 +150,9 @@ class C11(Prop):
             'canonical request line; non-ASCII: the 18 code points whose lower/upper/casefold lands in the alphabet '
             '(KELVIN, LONG S, dotted/dotless I, sharp s, ligatures ...), fullwidth/compatibility twins, controls, astral '
             'code points and lone surrogates, at every position of lower/upper/mixed renderings, in HRP arguments and '
-            'through CBech32Data')
+            'through CBech32Data; histories: every ordered pair of a catalogue of 27 calls (succeeding, rejecting, raising '
+            'part-way, other chain, same/different arguments) + random histories; observer sequences on one CBech32Data '
+            'instance: all ordered pairs and permutations of str/bytes/witver/==/hash/repr with chain switches between')
 
     def setup(self):
         ensure_repo_on_path()
@@ -164,6 +191,14 @@ class C11(Prop):
                     out.append((h, a))
         for h in ('1', '?', 'a1b', '111', '0', 'x' * 30, 'kis', 'fthwyjl'):
             a = self._enc(h, 0, bytes(range(7, 27)))
+            if a is not None:
+                out.append((h, a))
+        # "pangram": the 20-byte program whose 5-bit groups are 0..31, so the data part shows every character of
+        # the alphabet; under a prefix made of every ASCII letter that some non-ASCII code point case-maps to
+        letters = sorted({c.lower() for hit in casemap_scan().values() for c in hit if c.isalpha()})
+        pangram = bytes(self.SA.convertbits(list(range(32)), 5, 8, False))
+        for h in (''.join(letters), 'bc'):
+            a = self._enc(h, 0, pangram)
             if a is not None:
                 out.append((h, a))
         return out
@@ -351,14 +386,15 @@ class C11(Prop):
         # (3d) non-ASCII / control code points in every position class (prefix, separator, data, checksum) of the
         #      lower-, upper- and mixed-case renderings of every fixed address: substitution and insertion;
         #      plus the FULLWIDTH twin of the character at that position.  Partitioned by (address, form, position).
-        specials = list(SPECIALS)
+        specials = sorted(set(casemap_scan()) | set(CASEMAP_SPECIALS)) + OTHER_SPECIALS
+        casemap_all = set(casemap_scan()) | set(CASEMAP_SPECIALS)
         nfkc_extra = []
         if big:                     # every code point whose NFKC form is a letter/digit of the alphabet (~1000)
             import unicodedata
             nfkc_extra = [cp for cp in range(128, 0x110000) if not 0xd800 <= cp <= 0xdfff
                           and len(unicodedata.normalize('NFKC', chr(cp))) == 1
                           and unicodedata.normalize('NFKC', chr(cp)).lower() in CHARSET + '1bio']
-        spec_addrs = fixed if big else [x for k, x in enumerate(fixed) if k in (0, 1, 3) or x[0] in ('bcrt', 'kis', 'fthwyjl', '1')]
+        spec_addrs = fixed if big else [x for k, x in enumerate(fixed) if k in (0, 1, 3) or x[0] in ('bcrt', 'kis', 'fthwyjl', '1') or k >= len(fixed) - 2]
         for ai, (h, a) in enumerate(spec_addrs):
             lo, up = a.lower(), a.upper()
             mixed = ''.join(c.upper() if k % 2 else c for k, c in enumerate(lo))
@@ -370,7 +406,7 @@ class C11(Prop):
                         z = chr(cp)
                         if i < len(form):
                             yield mk('c11.decode', cps(h), cps(form[:i] + z + form[i + 1:]), tag='special-sub')
-                        if cp in CASEMAP_SPECIALS or cp in (0, 0x20, 0xd800, 0x10000):
+                        if cp in casemap_all or cp in (0, 0x20, 0xd800, 0x10000):
                             yield mk('c11.decode', cps(h), cps(form[:i] + z + form[i:]), tag='special-ins')
                     if i < len(form):
                         yield mk('c11.decode', cps(h), cps(form[:i] + fullwidth(form[i]) + form[i + 1:]),
@@ -385,7 +421,7 @@ class C11(Prop):
                 for i in range(len(form)):
                     if not mine():
                         continue
-                    for cp in CASEMAP_SPECIALS + [0, 0x80, 0xff11, 0x10000, 0xdc00]:
+                    for cp in sorted(casemap_all) + [0, 0x80, 0xff11, 0x10000, 0xdc00]:
                         yield mk('c11.new', ch, cps(form[:i] + chr(cp) + form[i + 1:]), tag='special-new')
         for (h, a) in spec_addrs:
             for i in range(len(h)):
@@ -432,6 +468,67 @@ class C11(Prop):
                                 if c2 != a[j]:
                                     yield mk('c11.decode', cps(h), cps(a[:i] + c1 + a[i + 1:j] + c2 + a[j + 1:]),
                                              tag='sub2-all')
+
+        # (5) histories (one process, call after call) and observer sequences on ONE CBech32Data object.
+        #     The model answers every step statelessly.  Each history starts with two neutral flushing steps
+        #     (reported as '-') so that a replay from a fresh process reproduces.
+        p20, p32 = bytes(range(1, 21)), bytes(range(60, 92))
+        va = {h: self._enc(h, 0, p20) for h in CHAIN_HRPS}
+        vb = {h: self._enc(h, 1, p32) for h in CHAIN_HRPS}
+        bad = va['bc'][:-1] + ('q' if va['bc'][-1] != 'q' else 'p')
+        FLUSH = ['~new;mainnet;' + cps(self._enc('bc', 0, bytes(20))), '~encode;' + cps('tb') + ';1;' + bytes(2).hex()]
+        calls = [
+            'decode;%s;%s' % (cps('bc'), cps(va['bc'])), 'decode;%s;%s' % (cps('tb'), cps(va['bc'])),
+            'decode;%s;%s' % (cps('bc'), cps(va['bc'].upper())), 'decode;%s;%s' % (cps('bc'), cps(bad)),
+            'decode;%s;%s' % (cps('tb'), cps(vb['tb'])), 'decode;%s;%s' % (cps('bc'), cps(vb['bc'])),
+            'b32dec;%s' % cps(va['bc']), 'b32dec;%s' % cps(bad),
+            'encode;%s;0;%s' % (cps('bc'), p20.hex()), 'encode;%s;0;%s' % (cps('tb'), p20.hex()),
+            'encode;%s;1;%s' % (cps('bc'), p32.hex()), 'encode;%s;0;%s' % (cps('bc'), p32[:21].hex()),
+            'encode;%s;17;%s' % (cps('bc'), p20.hex()), 'encode;%s;0;%s' % (cps('BC'), p20.hex()),
+            '~encode;%s;40;%s' % (cps('bc'), p20.hex()),            # raises part-way (IndexError), outcome masked
+            '~encode;%s;1000;%s' % (cps('tb'), p32.hex()),
+            'new;mainnet;%s' % cps(va['bc']), 'new;testnet;%s' % cps(va['bc']), 'new;testnet;%s' % cps(va['tb']),
+            'new;regtest;%s' % cps(vb['bcrt']), 'new;mainnet;%s' % cps(bad), 'new;signet;%s' % cps(vb['tb'].upper()),
+            'str;mainnet;0;%s' % p20.hex(), 'str;regtest;0;%s' % p20.hex(), 'str;testnet;1;%s' % p32.hex(),
+            'str;mainnet;17;%s' % p20.hex(),                          # ValueError from from_bytes
+            '~str;mainnet;0;%s' % p20[:5].hex(),                      # __str__ returns None -> TypeError, masked
+        ]
+        # every history ends with fixed, compared probe calls of each entry point, so that state left behind by
+        # one of its steps shows inside the same history (the replay file is then self-contained)
+        PROBE = ['encode;%s;0;%s' % (cps('bc'), p20.hex()), 'decode;%s;%s' % (cps('tb'), cps(va['bc'])),
+                 'decode;%s;%s' % (cps('bc'), cps(va['bc'])), 'new;mainnet;%s' % cps(va['bc']),
+                 'str;mainnet;0;%s' % p20.hex()]
+        for x in calls:                                               # every ordered pair, same and different args
+            for y in calls:
+                if mine():
+                    yield mk('c11.seq', *FLUSH, x, y, *PROBE, tag='history-pair')
+        for _ in range(6000 if big else 600):
+            seq = [crng.choice(calls) for _ in range(crng.randint(3, 7))]
+            if mine():
+                yield mk('c11.seq', *FLUSH, *seq, *PROBE, tag='history')
+        observers = ['str', 'bytes', 'tobytes', 'witver', 'len', 'hash', 'repr', 'eq:' + p20.hex(), 'ne:' + p32.hex(),
+                     'eq:' + p32.hex()]
+        objs = [('mainnet', 'fb', '0:' + p20.hex()), ('testnet', 'fb', '1:' + p32.hex()),
+                ('mainnet', 'new', cps(va['bc'])), ('regtest', 'new', cps(vb['bcrt'].upper())),
+                ('signet', 'new', cps(va['tb'])), ('regtest', 'fb', '16:' + p32[:2].hex())]
+        for (ch, how, payload) in objs:
+            for o1 in observers:                                      # all ordered pairs on the same instance
+                for o2 in observers:
+                    if mine():
+                        yield mk('c11.obj', ch, how, payload, o1, o2, tag='observer-pair')
+                        other = CHAINS[(CHAINS.index(ch) + 1) % 4]
+                        yield mk('c11.obj', ch, how, payload, o1, 'sel:' + other, o2, 'sel:' + ch, o1, o2, tag='observer-pair')
+            for perm in itertools.permutations(['str', 'bytes', 'witver', 'eq:' + p20.hex(), 'hash']):
+                if mine():
+                    yield mk('c11.obj', ch, how, payload, *perm, tag='observer-perm')
+        for _ in range(3000 if big else 300):
+            ch, how, payload = crng.choice(objs)
+            toks = [crng.choice(observers + ['sel:' + c for c in CHAINS]) for _ in range(crng.randint(3, 9))]
+            if mine():
+                yield mk('c11.obj', ch, how, payload, *toks, tag='observer-seq')
+        for (ch, how, payload) in (('mainnet', 'new', cps(bad)), ('mainnet', 'fb', '17:' + p20.hex())):
+            if mine():
+                yield mk('c11.obj', ch, how, payload, 'str', tag='observer-pair')
 
         # (4) CBech32Data under each chain's HRP
         for ch in CHAINS:
@@ -490,7 +587,52 @@ class C11(Prop):
                 finally:
                     self.bitcoin.SelectParams('mainnet')
             return guarded(f)
+        if op == 'c11.seq':
+            outs = []
+            try:
+                for step in a:
+                    k, *sa = step.split(';')
+                    masked = k.startswith('~')
+                    o = self.impl(mk('c11.' + k.lstrip('~'), *sa))
+                    outs.append('-' if masked else o)
+            finally:
+                self.bitcoin.SelectParams('mainnet')
+            return ' '.join(outs)
+        if op == 'c11.obj':
+            return self._obj(a)
         raise ValueError(op)
+
+    def _obj(self, a):
+        """build ONE CBech32Data object, then run the observers on that same instance"""
+        chain, how, payload, toks = a[0], a[1], a[2], a[3:]
+        B = self.B32.CBech32Data
+        outs = []
+        try:
+            self.bitcoin.SelectParams(chain)
+            try:
+                if how == 'new':
+                    o = B(uncps(payload))
+                else:
+                    v, hx_ = payload.split(':')
+                    o = B.from_bytes(int(str(int(v))), bytes(bytearray(bytes.fromhex(hx_))))
+            except Exception as e:  # noqa: BLE001
+                return guarded(lambda: (_ for _ in ()).throw(e))
+            outs.append('ok')
+            for t in toks:
+                k, _, arg = t.partition(':')
+                if k == 'sel':
+                    self.bitcoin.SelectParams(arg)
+                    outs.append('-')
+                    continue
+                f = {'str': lambda: str(o), 'repr': lambda: repr(o), 'bytes': lambda: bytes(o).hex(),
+                     'tobytes': lambda: o.to_bytes().hex(), 'witver': lambda: str(o.witver), 'len': lambda: str(len(o)),
+                     'hash': lambda: str(hash(o) == hash(bytes(o))),
+                     'eq': lambda: str(o == bytes(bytearray(bytes.fromhex(arg)))),
+                     'ne': lambda: str(o != bytes(bytearray(bytes.fromhex(arg))))}[k]
+                outs.append(guarded(f))
+        finally:
+            self.bitcoin.SelectParams('mainnet')
+        return ' '.join(outs)
 
     def nontrivial(self, c, io):
         return any(x not in ('', '0') for x in c['args'])
@@ -526,6 +668,9 @@ class C11(Prop):
                 yield mk(op, a[0], cps(s[:i] + s[i + 1:]), tag=tag)
             if a[0] != 'mainnet':
                 yield mk(op, 'mainnet', a[1], tag=tag)
+
+    # c11.seq / c11.obj histories are not shrunk in-process (earlier cases may have touched module state; the
+    # unshortened history starts with flushing steps and replays from a fresh process)
 
     def signature(self, c, io, mo):
         return None
